@@ -128,11 +128,11 @@ class History:
         except Exception as e:
             self.note(f"create {kind} raised {type(e).__name__}")
             return None
-        if rng.random() < 0.3:
+        if rng.random() < 0.4:
             # mutable metadata values from the start (a list of cuts, a nested dict as parsed from JSON)
             with attach.quiet():
                 # (also under a key that is the name of a constructor argument: such entries travel on a path of their own)
-                h.meta_data[rng.choice(["cuts", "cuts", "missed"])] = [1, 2] if rng.random() < 0.5 else {"a": [1]}
+                h.meta_data[rng.choice(["cuts", "missed"])] = [1, 2] if rng.random() < 0.5 else {"a": [1]}
         self.add(h)
         self.note(f"create {kind} -> {type(h).__name__}{h.shape}:{h.dtype}")
         return h
